@@ -57,6 +57,8 @@ var srcUnits = []srcUnit{
 			"intersectionOfSomeIntervalLists_endPoint", "IntersectionOfSomeIntervalLists", "Intersection"}},
 	{dir: "utils/stack", path: modPath + "/utils/stack", lean: "Stack", pre: "stack",
 		funcs: []string{"Push", "Pop"}},
+	{dir: "event/rules_lib", path: modPath + "/event/rules_lib", lean: "Rules", pre: "rules",
+		funcs: []string{"WeekMonth.IsValid"}},
 	{dir: "cal_types/julian", path: modPath + "/cal_types/julian", lean: "Julian", pre: "julian",
 		funcs: []string{"IsLeap", "getYearDays", "getMonthDayFromYdays", "ToJd", "JdTo", "GetMonthLen"}},
 	{dir: "cal_types/jalali", path: modPath + "/cal_types/jalali", lean: "Jalali", pre: "jalali",
@@ -2070,6 +2072,9 @@ func translateFunc(sp *srcPkg, all map[string]*srcPkg, name string, chk bool) (d
 			if ls, ok := srcStructs[n.Obj().Pkg().Path()+"."+n.Obj().Name()]; ok && len(r.Names) == 1 {
 				params = append(params, "("+t.nameOf(sp.info.Defs[r.Names[0]])+" : "+ls+")")
 			} else if _, isSlice := n.Underlying().(*types.Slice); isSlice && len(r.Names) == 1 {
+				params = append(params, "("+t.nameOf(sp.info.Defs[r.Names[0]])+" : "+t.leanType(rt)+")")
+			} else if st, isSt := n.Underlying().(*types.Struct); isSt && st.NumFields() > 0 && len(r.Names) == 1 && n.Obj().Pkg() == sp.pkg {
+				// a method of one of the package's own structures: the receiver is the first parameter
 				params = append(params, "("+t.nameOf(sp.info.Defs[r.Names[0]])+" : "+t.leanType(rt)+")")
 			}
 		}
